@@ -60,8 +60,8 @@ M("c01-compare-constant", ["C01"], VM,
   "if time.monotonic() - self.start_time > self.time_limit:\n                raise TimeLimitError", "if time.monotonic() - self.start_time > 3600:\n                raise TimeLimitError",
   [("C01", "C01-R2", "raise TimeLimitError")])
 M("c01-main-poll-only-unanchored", ["C01"], RV,
-  "            if step_count % self.poll_interval == 0:\n                if self.poll_callback and self.poll_callback():\n                    raise RegexTimeoutError(\"Regex execution timed out\")\n\n            # Hard step limit",
-  "            if step_count % self.poll_interval == 0 and not anchored:\n                if self.poll_callback and self.poll_callback():\n                    raise RegexTimeoutError(\"Regex execution timed out\")\n\n            # Hard step limit",
+  "            if self._steps_since_start % self.poll_interval == 0:\n                if self.poll_callback and self.poll_callback():\n                    raise RegexTimeoutError(\"Regex execution timed out\")\n\n            # Hard step limit",
+  "            if self._steps_since_start % self.poll_interval == 0 and not anchored:\n                if self.poll_callback and self.poll_callback():\n                    raise RegexTimeoutError(\"Regex execution timed out\")\n\n            # Hard step limit",
   [("C01", "C01-R3", "RegexVM._run:"), ])
 M("c01-regexp-ctor-no-callback", ["C01"], CX,
   "            return JSRegExp(pattern, flags, poll_callback)", "            return JSRegExp(pattern, flags)",
@@ -603,10 +603,10 @@ M("c09-lookahead-body-shares-captures", ["C09"], RV,
   "                inner = self._run(string, pc + 1, sp, captures)\n                if inner is not None:\n                    captures = inner[1]",
   [("C09", "C09-R4", "snapshots")])
 T("t-regex-poll-helper", ["C01", "C10"], RV,
-  "            step_count += 1\n            if step_count % self.poll_interval == 0:\n                if self.poll_callback and self.poll_callback():\n                    raise RegexTimeoutError(\"Regex execution timed out\")\n",
-  "            step_count += 1\n            self._poll(step_count)\n",
-  more=[(RV, "    def _backtrack(self, stack: List[Tuple]) -> Tuple:\n", "    def _poll(self, step_count: int) -> None:\n        if step_count % self.poll_interval == 0:\n            if self.poll_callback and self.poll_callback():\n                raise RegexTimeoutError(\"Regex execution timed out\")\n\n    def _backtrack(self, stack: List[Tuple]) -> Tuple:\n", 1)],
-  note="poll moved into a helper that receives the local counter")
+  "            self._steps_since_start += 1\n            if self._steps_since_start % self.poll_interval == 0:\n                if self.poll_callback and self.poll_callback():\n                    raise RegexTimeoutError(\"Regex execution timed out\")\n",
+  "            self._poll()\n",
+  more=[(RV, "    def _backtrack(self, stack: List[Tuple]) -> Tuple:\n", "    def _poll(self) -> None:\n        self._steps_since_start += 1\n        if self._steps_since_start % self.poll_interval == 0:\n            if self.poll_callback and self.poll_callback():\n                raise RegexTimeoutError(\"Regex execution timed out\")\n\n    def _backtrack(self, stack: List[Tuple]) -> Tuple:\n", 1)],
+  note="counting and polling moved into a helper that keeps the cross-run counter")
 M("c10-lookbehind-accepts-any-end", ["C09"], RV,
   "                if must_end_at is not None and sp != must_end_at:\n", "                if False:\n",
   [], note="value-level: which end position a lookbehind accepts is matching semantics, not decided statically")
@@ -1023,3 +1023,27 @@ S("seed-C09-e", ["C09"], "seeded/C09-e/patch.diff", [("C09", "C09-R4", "snapshot
 TP("t-captures-copy-on-write", ALL_PROPS, "selftest/patches/t-captures-copy-on-write.diff", note="copy-on-write captures with every writer replacing the list first (repaired C09-e)")
 S("seed-C01-e", ["C01"], "seeded/C01-e/patch.diff", [("C01", "C01-R1", "loop")], note="the clock is polled in a function of its own at safepoints; the do-while back edge has none (second author, the slip of C01-d)", silent=("C02",))
 TP("t-clock-polled-at-safepoints", ALL_PROPS, "selftest/patches/t-clock-polled-at-safepoints.diff", note="time polled at safepoints by its own function with a bit-mask gate, memory still per instruction (repaired C01-e)")
+M("c10-poll-counter-per-run", ["C10", "C01"], "src/microjs/regex/vm.py",
+  "            self._steps_since_start += 1\n            if self._steps_since_start % self.poll_interval == 0:\n", "            if step_count % self.poll_interval == 0:\n",
+  [("C10", "C10-R2a", "_run"), ("C01", "C01-R3", "_run")], note="the deadline poll gated on the per-run step count again")
+M("c20-start-beyond-subject-unchecked", ["C20", "C10"], "src/microjs/regex/regex.py",
+  "        if start_pos > len(string):\n", "        if False:\n",
+  [("C20", "C20-R9", "exec"), ("C10", "C10-R10", "exec")], note="fix 910eb38 reverted")
+
+# ---- wave 9 ---------------------------------------------------------------------------------------------
+S("seed-C20-e", ["C20"], "seeded/C20-e/patch.diff", [("C20", "C20-R8", "RegExp:y:advance")], note="exec as one straight line with a local `uses_last_index`; the success exit advances lastIndex for g only")
+TP("t-regexp-exec-straight-line", ALL_PROPS, "selftest/patches/t-regexp-exec-straight-line.diff", note="the same straight-line exec with all three lastIndex sites under the one condition (repaired C20-e)")
+S("seed-C17-e", ["C17"], "seeded/C17-e/patch.diff", [("C17", "C17-R14", "set_fn")], note="same-class fast path of TypedArray.set block-copies the per-view cache instead of reading through the buffer")
+S("seed-C19-e", ["C19"], "seeded/C19-e/patch.diff", [("C19", "C19-R6", "serialize:k")], note="arrays and objects written by one loop; `if not k` takes the key '' for no key")
+TP("t-json-one-member-loop", ALL_PROPS, "selftest/patches/t-json-one-member-loop.diff", note="the same loop with `k is None` (repaired C19-e)")
+S("seed-C08-e", ["C08"], "seeded/C08-e/patch.diff", [("C08", "C08-R15", "_invoke_js_function:this_val")], note="the default receiver applied once with `this_val or UNDEFINED`: falsy receivers become undefined")
+TP("t-receiver-default-in-one-place", ALL_PROPS, "selftest/patches/t-receiver-default-in-one-place.diff", note="the same single place with `is None` (repaired C08-e)")
+S("seed-C02-f", ["C02", "C05"], "seeded/C02-f/patch.diff", [("C02", "C02-R6", "finally-rethrow"), ("C05", "C05-R3", "finally-rethrow")], note="the extract-method slip of C02-e by a second author")
+S("seed-C10-e", ["C10", "C09"], "seeded/C10-e/patch.diff", [("C10", "C10-R8", "_run_lookbehind"), ("C09", "C09-R5", "_run_lookbehind")], note="fixed-width lookbehind fast path starts at end_pos - width without a test against 0")
+S("seed-C12-e", ["C12"], "seeded/C12-e/patch.diff", [("C12", "C12-R3", "eval")], note="_current_vm set before compiling; a syntax error leaves it pointing at an interpreter that never ran")
+S("seed-C03-e", ["C03"], "seeded/C03-e/patch.diff", [("C03", "C03-R9", "_get_property")], note="the __proto__ accessor returns the prototype link, which is Python None at the end of a chain")
+TP("t-proto-accessor", ALL_PROPS, "selftest/patches/t-proto-accessor.diff", note="the same accessor with None mapped to null (repaired C03-e)")
+S("seed-C07-f", ["C07", "C05", "C02"], "seeded/C07-f/patch.diff", [("C07", "C07-R4c", "loop_stack"), ("C05", "C05-R5", "loop_stack"), ("C02", "C02-R10", "loop_stack")], note="per-function compiler state switched by a begin/end helper pair that saves and restores loop_stack but never clears it")
+TP("t-function-state-record", ALL_PROPS, "selftest/patches/t-function-state-record.diff", note="the same helper pair with loop_stack cleared (repaired C07-f)")
+S("seed-C05-f", ["C05", "C02"], "seeded/C05-f/patch.diff", [("C05", "C05-R3", "IfStatement"), ("C02", "C02-R6", "IfStatement")], note="peephole for `if (c) break/continue` that jumps straight to the target when no try is crossed, forgetting the operands of crossed for-in/for-of/switch")
+TP("t-guarded-jump-peephole", ALL_PROPS, "selftest/patches/t-guarded-jump-peephole.diff", note="the same peephole, declined whenever a crossed context holds operands (repaired C05-f)")
